@@ -16,6 +16,7 @@ import (
 	"k8s.io/apimachinery/pkg/runtime"
 	"k8s.io/apimachinery/pkg/types"
 	"k8s.io/pod-security-admission/admission"
+	admissionapi "k8s.io/pod-security-admission/admission/api"
 	"k8s.io/pod-security-admission/cmd/webhook/server"
 )
 
@@ -46,12 +47,20 @@ func kindOf(res string) (apiVersion, kind string) {
 	return "v1", "ConfigMap"
 }
 
-func rawTyped(o runtime.Object, apiVersion, kind string) runtime.RawExtension {
+func rawTyped(o runtime.Object, apiVersion, kind string, future bool) runtime.RawExtension {
 	b, err := json.Marshal(o)
 	if err != nil {
 		panic(err)
 	}
 	head := []byte(`{"apiVersion":"` + apiVersion + `","kind":"` + kind + `"`)
+	if future { // fields a newer API server knows and this build does not: at the top level and inside spec
+		head = append(head, []byte(`,"futureTopLevelField":{"a":1}`)...)
+		if bytes.Contains(b, []byte(`"spec":{}`)) {
+			b = bytes.Replace(b, []byte(`"spec":{}`), []byte(`"spec":{"futureSpecField":"x"}`), 1)
+		} else {
+			b = bytes.Replace(b, []byte(`"spec":{`), []byte(`"spec":{"futureSpecField":"x",`), 1)
+		}
+	}
 	if len(b) > 2 {
 		head = append(head, ',')
 	}
@@ -74,6 +83,7 @@ func (a *AdmitCase) review(uid string, noise int) []byte {
 		req.UserInfo.Extra = map[string]authenticationv1.ExtraValue{"scopes": {"exuser"}}
 		req.Options = runtime.RawExtension{Raw: []byte(`{"apiVersion":"meta.k8s.io/v1","kind":"CreateOptions","fieldManager":"kubectl"}`)}
 	}
+	future := noise%3 == 2
 	enc := func(o ObjSpec) runtime.RawExtension {
 		switch o.Kind {
 		case "err":
@@ -83,17 +93,20 @@ func (a *AdmitCase) review(uid string, noise int) []byte {
 		case "other":
 			return runtime.RawExtension{Raw: []byte(`{"apiVersion":"v1","kind":"ConfigMap","metadata":{"name":"cm"}}`)}
 		case "pod":
-			return rawTyped(o.runtimeObject(), "v1", "Pod")
+			return rawTyped(o.runtimeObject(), "v1", "Pod", future)
 		case "namespace":
-			return rawTyped(o.runtimeObject(), "v1", "Namespace")
+			return rawTyped(o.runtimeObject(), "v1", "Namespace", future)
 		}
 		av, k := kindOf(o.CtlKind)
-		return rawTyped(o.runtimeObject(), av, k)
+		return rawTyped(o.runtimeObject(), av, k, future)
 	}
 	req.Object = enc(a.Obj)
 	req.OldObject = enc(a.Old)
 	rv := &admissionv1.AdmissionReview{TypeMeta: metav1.TypeMeta{APIVersion: "admission.k8s.io/v1", Kind: "AdmissionReview"}, Request: req}
-	b, _ := json.Marshal(rv)
+	b, err := json.Marshal(rv)
+	if err != nil {
+		panic("harness: review does not serialise: " + err.Error())
+	}
 	return b
 }
 
@@ -102,8 +115,36 @@ func (a *AdmitCase) review(uid string, noise int) []byte {
 // objects), through the real handler over HTTP, many in flight. The answer must carry the request's uid and the library's
 // whole decision for the equivalent attributes: allowed, status, warnings, audit annotations.
 func runC16Mixed(c *Ctx, namespaces nsByName, newAdm func(lister admission.PodLister) *admission.Admission) {
+	webhookMixed(c, sizes(c, 1200, 20000), "", namespaces, newAdm)
+}
+
+// webhookFixture: the namespaces and the controller configuration of the webhook runs
+func webhookFixture() (nsByName, func(lister admission.PodLister) *admission.Admission) {
+	namespaces := nsByName{
+		"priv":       {},
+		"restricted": {"pod-security.kubernetes.io/enforce": "restricted"},
+		"baseline":   {"pod-security.kubernetes.io/enforce": "baseline", "pod-security.kubernetes.io/warn": "restricted", "pod-security.kubernetes.io/audit": "restricted"},
+		"exns":       {"pod-security.kubernetes.io/enforce": "restricted"},
+		"badlabels":  {"pod-security.kubernetes.io/enforce": "bogus", "pod-security.kubernetes.io/warn": "baseline"},
+	}
+	return namespaces, func(lister admission.PodLister) *admission.Admission {
+		adm := &admission.Admission{
+			Configuration: &admissionapi.PodSecurityConfiguration{
+				Defaults:   admissionapi.PodSecurityDefaults{Enforce: "privileged", EnforceVersion: "latest", Audit: "privileged", AuditVersion: "latest", Warn: "privileged", WarnVersion: "latest"},
+				Exemptions: admissionapi.PodSecurityExemptions{Namespaces: []string{"exns"}, Usernames: []string{"exuser"}, RuntimeClasses: []string{"exrc"}}},
+			Evaluator: realEvaluator, Metrics: &recorder{}, PodSpecExtractor: admission.DefaultPodSpecExtractor{},
+			NamespaceGetter: namespaces, PodLister: lister,
+		}
+		if err := adm.CompleteConfiguration(); err != nil {
+			panic(err)
+		}
+		return adm
+	}
+}
+
+// webhookMixed: n reviews of the given kind ("" = every kind) through the real handler from 16 clients
+func webhookMixed(c *Ctx, n int, kind string, namespaces nsByName, newAdm func(lister admission.PodLister) *admission.Admission) {
 	r := NewRng(c.Seed + 1616)
-	n := sizes(c, 1200, 20000)
 	pods := clusterLister{}
 	nsNames := []string{"priv", "restricted", "baseline", "exns", "badlabels", "missing"}
 	for _, ns := range nsNames {
@@ -126,7 +167,7 @@ func runC16Mixed(c *Ctx, namespaces nsByName, newAdm func(lister admission.PodLi
 	}
 	items := make([]*item, n)
 	for i := range items {
-		a := genAdmitCase(r.Fork(), i, AdmitKnobs{FaultPct: 12, SynPct: 0, SubPct: 25})
+		a := genAdmitCase(r.Fork(), i, AdmitKnobs{Kind: kind, FaultPct: 12, SynPct: 0, SubPct: 25})
 		a.NS = pick(r, nsNames)
 		a.User = pick(r, []string{"u", "u", "exuser", "exns", "Exuser"})
 		a.ExpireAfter, a.Remaining, a.NSErr, a.ListErr = -1, 0, false, false
